@@ -640,3 +640,57 @@ def run_comment_order(prog, tier, repo):
                 res.ok(key, b.loc(t[7]), 'receiver holds comments lexed no later than the appended ones')
     res.floor('comment vector concatenations', n, 30)
     return [res]
+
+
+# ---------------------------------------------------------------------------------------------------------------------
+# COMMENT-REF-UNIQUE (C09): every comment reference has exactly one holder in the tree. A reference that is read out of a
+# node and stored in a new node while the first node itself is also kept (moved into the tree) is printed by both holders:
+# the comment appears twice, and on the next format four times.
+
+def run_comment_ref_unique(prog, tier, repo):
+    from ..dataflow import operand_root
+    res = RuleResult('COMMENT-REF-UNIQUE', 'C09: the parser never stores a comment reference read out of a node into another node '
+                     'while the first node is kept as well (two holders print the comment twice)')
+    n = 0
+    for b in sorted(prog.bodies.values(), key=lambda x: x.name):
+        if b.crate != 'samlang_parser' or '::source_parser::' not in b.name + '::' or '::tests' in b.name:
+            continue
+        aggs = []
+        for bi, bl in enumerate(b.blocks):
+            if bl.cleanup:
+                continue
+            for st in bl.stmts:
+                if st[0] == 'a' and st[2][0] == 'agg' and st[2][1][0] == 'adt' and st[2][1][1].startswith('samlang_ast::source'):
+                    aggs.append((bi, st))
+        # locals moved whole into a source node
+        kept = {}
+        for bi, st in aggs:
+            for o in st[2][2]:
+                if o[0] in ('c', 'm') and not o[1].proj:
+                    r, p_ = operand_root(b, o)
+                    if r is not None and not [e for e in p_ if e[0] == 'f']:
+                        kept.setdefault(r, st[3])
+                    kept.setdefault(o[1].local, st[3])
+        for bi, st in aggs:
+            adt = prog.adts.get(st[2][1][1])
+            if adt is None:
+                continue
+            fields = adt.variants[st[2][1][2]].fields
+            for k, o in enumerate(st[2][2]):
+                if k >= len(fields) or not (fields[k].ty.k == 'adt' and fields[k].ty.name == CREF) or o[0] not in ('c', 'm'):
+                    continue
+                r, p_ = operand_root(b, o)
+                fs = [e for e in p_ if e[0] == 'f']
+                if r is None or not fs:
+                    continue        # a fresh reference (create_comment_reference result) or a parameter value
+                n += 1
+                nb = sum(1 for i in res.instances if i.key.startswith(f'copy:{b.name}#')) + 1
+                key = f'copy:{b.name}#{nb}'
+                if r in kept and kept[r] is not None:
+                    res.violation(key, b.loc(st[3]), f'{b.name} copies the comment reference `{fs[-1][4]}` out of a node into a new '
+                                  f'{adt.name.split("::")[-1]} while the node it was read from is stored in the tree as well (line '
+                                  f'{kept[r]}): both nodes print the comment, so formatting duplicates it on every pass')
+                else:
+                    res.ok(key, b.loc(st[3]), 'the node the reference is taken from is not kept (destructured / replaced)')
+    res.analysed['references_copied_out_of_nodes'] = n
+    return [res]
